@@ -14,10 +14,11 @@ import (
 // each kind of event the supervisor must turn into a violation and is run by
 // `./check.sh --selftest` (and by setup), which fails unless exactly the
 // expected signatures are reported:
-//   batch 0: a recovered panic inside the engine call and a wrong output;
-//   batch 1: the worker process dies (os.Exit) in the middle of a case: the
-//            journal must name the case and the batch must be resumed;
-//   batch 2: the case never returns: watchdog, confirmed by re-running it alone.
+//
+//	batch 0: a recovered panic inside the engine call and a wrong output;
+//	batch 1: the worker process dies (os.Exit) in the middle of a case: the
+//	         journal must name the case and the batch must be resumed;
+//	batch 2: the case never returns: watchdog, confirmed by re-running it alone.
 func s00Run(b *core.B) {
 	switch b.Batch {
 	case 0:
@@ -71,12 +72,12 @@ func s00Run(b *core.B) {
 
 func init() {
 	core.Register(&core.Prop{
-		ID:            "S00",
-		Level:         "other",
-		Rule:          "self-test: planted panic, wrong output, process death and hang must each be reported",
-		Batches:       func(core.Tier) int { return 3 },
-		Run:           s00Run,
-		BatchTimeoutS: func(core.Tier) int { return 3 },
+		ID:              "S00",
+		Level:           "other",
+		Rule:            "self-test: planted panic, wrong output, process death and hang must each be reported",
+		Batches:         func(core.Tier) int { return 3 },
+		Run:             s00Run,
+		BatchTimeoutS:   func(core.Tier) int { return 3 },
 		ConfirmTimeoutS: 1,
 	})
 }
